@@ -119,7 +119,7 @@ package annotateparser
 //@   ensures[array-suffix-is-looked-for-after-every-single-type] hits("LookAheadKind#1") >= 1
 //@   ensures[every-array-suffix-is-consumed] l.aheadToken.valid && l.aheadToken.tokenKind != annotatelexer.ATokenVSepLbrack
 //@   ensures[suffix-consumed-iff-array] (hits("NextTokenOfKind#2") >= 1 <==> typeis(result, "*annotateast.ArrayType")) && hits("NextTokenOfKind#2") == hits("NextTokenOfKind#3")
-//@   loop for:l.LookAheadKind()==annotatelexer.ATokenVSepLbrack invariant subType != nil && (hits("NextTokenOfKind#2") >= 1 <==> typeis(subType, "*annotateast.ArrayType")) && hits("NextTokenOfKind#2") == hits("NextTokenOfKind#3")
+//@   loop for:l.LookAheadKind()==annotatelexer.ATokenVSepLbrack invariant [C16,C01] subType != nil && (hits("NextTokenOfKind#2") >= 1 <==> typeis(subType, "*annotateast.ArrayType")) && hits("NextTokenOfKind#2") == hits("NextTokenOfKind#3")
 //@        && (typeis(subType, "*annotateast.ArrayType") ==> as(subType, "*annotateast.ArrayType").ItemType != nil)
 //@   loop for:l.LookAheadKind()==annotatelexer.ATokenVSepLbrack step [each-suffix-wraps-the-type-parsed-so-far] typeis(subType, "*annotateast.ArrayType") && as(subType, "*annotateast.ArrayType").ItemType == prev(subType)
 //@ end
